@@ -81,6 +81,10 @@ def check_nndvi(scn):
     rng = np.random.RandomState(seed)
     levels = [0, 0, 3, 3, 0, 4, 4]
     batches = [levels[i % len(levels)] + rng.randn(12 + (i % 3) * 5, 2) for i in range(nb + 1)]
+    if scn.get("creep"):
+        # a slowly drifting history: the distance stays close to the critical value, so the decision is sensitive to how the
+        # critical value was estimated (number of re-assignments, fit)
+        batches = [scn["creep"] * i + rng.randn(30, 2) for i in range(nb + 1)]
     if scn.get("lattice"):
         batches = [np.round(b) for b in batches]
     d = NNDVI(k_nn=k, sampling_times=st, alpha=alpha)
@@ -142,7 +146,7 @@ def run(tier, seed, repo, focus=None):
     import numpy as _np
     prng = _np.random.RandomState(seed + 1010)
     for r in range(4 if quick else 40):
-        scn = {"seed": seed + r, "batches": 9, "k": int(prng.randint(1, 7)), "sampling_times": int(prng.randint(2, 60)),
+        scn = {"seed": seed + r, "batches": 9, "k": int(prng.randint(1, 7)), "sampling_times": int(prng.choice([2, 7, 33, 101, 130, 257, 512])),
                "alpha": float(prng.choice([0.01, 0.05, 0.2, 0.5])), "lattice": bool(prng.randint(0, 2))}
         try:
             msg = check_nndvi(scn)
@@ -151,8 +155,19 @@ def run(tier, seed, repo, focus=None):
         res.count(key=repr(scn), nontrivial=True, n=9, check="NNDVI rule (random parameters)")
         if msg:
             res.violation("NNDVI: " + msg, REPLAY % dict(verif=VERIF, scn=scn, which="nndvi"), known)
+    for r in range(60 if quick else 300):
+        scn = {"seed": seed + r, "batches": 10, "k": 5, "sampling_times": [150, 250, 130][r % 3], "alpha": [0.05, 0.2, 0.4][r % 3],
+               "creep": [0.08, 0.12, 0.05][(r // 3) % 3]}
+        try:
+            msg = check_nndvi(scn)
+        except Exception as e:
+            msg = "%s: %s" % (type(e).__name__, e)
+        res.count(key=repr(scn), nontrivial=True, n=10, check="NNDVI rule (borderline histories)")
+        if msg:
+            res.violation("NNDVI: " + msg, REPLAY % dict(verif=VERIF, scn=scn, which="nndvi"), known)
     for s in range(3 if quick else 15):
-        for (k, st, alpha) in ((3, 30, 0.1), (2, 20, 0.05), (3, 1, 0.1), (4, 50, 0.01)):
+        # (150 / 250 re-assignments: above and off the round numbers an implementation might chunk by)
+        for (k, st, alpha) in ((3, 30, 0.1), (2, 20, 0.05), (3, 1, 0.1), (4, 50, 0.01), (3, 150, 0.1), (3, 250, 0.05)):
             for lattice in (False, True):
                 scn = {"seed": seed + s, "batches": 7, "k": k, "sampling_times": st, "alpha": alpha, "lattice": lattice}
                 try:
